@@ -25,6 +25,10 @@
 //	hasTypedMap        Has has a kind list `reflect.Ptr, reflect.Slice, reflect.Struct, reflect.Array:` without Map
 //	hasTypedDescent    Has does not call `reflectGetWild(tv)` in its descent
 //	walkTypedArray     Slice.Walk or Filter.Walk does not accept reflect.Array
+//	nestedFilterRoot   evalWithRoot evaluates a path operand with x.Get(dv) / x.FirstFound(dv) (Get's argument becomes the root of nested filters)
+//	locFilterRootNil   Filter.locate calls `f.evalWithRoot([]any{}, data, nil)`
+//	walkFilterRootSelf Filter.Walk tests with `f.Match(v)` (Match passes the element as the root)
+//	filterRootIsArgument (no flag; expected true) Get, FirstFound, Has, GetNodes and FirstNode hand their own argument to a filter as its root
 //
 // Fails loudly when a function it looks for is missing.
 package main
@@ -164,16 +168,23 @@ func extractJpath(repo, out string) ([]string, error) {
 	facts["hasTypedMap"] = has(hasF, "casereflect.Ptr,reflect.Slice,reflect.Struct,reflect.Array:")
 	facts["hasTypedDescent"] = !has(hasF, "got:=reflectGetWild(tv)")
 	facts["walkTypedArray"] = !(has(fn{"slice.go", "Slice", "Walk"}, "rv.Kind()==reflect.Array") && has(fwalk, "casereflect.Slice,reflect.Array:"))
+	facts["nestedFilterRoot"] = has(ewr, "x.Get(dv)") || has(ewr, "x.FirstFound(dv)")
+	facts["locFilterRootNil"] = has(fn{"filter.go", "Filter", "locate"}, "f.evalWithRoot([]any{},data,nil)")
+	facts["walkFilterRootSelf"] = has(fwalk, "f.Match(v)")
+	facts["filterRootIsArgument"] = has(fn{"get.go", "Expr", "Get"}, "tf.evalWithRoot(stack,prev,data)") && has(first, "tf.evalWithRoot(stack,prev,data)") &&
+		has(hasF, "tf.evalWithRoot(stack,prev,data)") && has(fn{"node.go", "Expr", "GetNodes"}, "tf.evalWithRoot(stack,prev,n)") &&
+		has(fn{"node.go", "Expr", "FirstNode"}, "tf.evalWithRoot(stack,prev,n)")
 	if firstErr != nil {
 		return nil, firstErr
 	}
 
 	order := []string{"innerEmptySlice", "descentSiblings", "locNegEnd", "locStartClamp", "locEmptyArray", "locateRoot",
 		"walkDescentNoSelf", "nodesUnionNil", "nodesFilterRev", "firstNodeLast", "nodesFilterNull", "typedMapWild",
-		"typedObjFilter", "firstTypedSlice", "firstTypedWildOne", "hasTypedMap", "hasTypedDescent", "walkTypedArray"}
+		"typedObjFilter", "firstTypedSlice", "firstTypedWildOne", "hasTypedMap", "hasTypedDescent", "walkTypedArray",
+		"nestedFilterRoot", "locFilterRootNil", "walkFilterRootSelf", "filterRootIsArgument"}
 	var b strings.Builder
 	b.WriteString("/- GENERATED by /verif/tools/extract (jpath.go) from jp/*.go — do not edit; rewritten on every run.\n")
-	b.WriteString("   One Bool per deviation flag of OjgVerif.JPath.Cfg: true = the deviation is in the source. -/\n")
+	b.WriteString("   One Bool per deviation flag of OjgVerif.JPath.Cfg: true = the deviation is in the source\n   (filterRootIsArgument is not a flag: true = the five Get-like entry points hand their argument to filters as the root). -/\n")
 	b.WriteString("namespace OjgVerif.Gen.JpathFacts\n\n")
 	for _, k := range order {
 		fmt.Fprintf(&b, "def %s : Bool := %v\n", k, facts[k])
